@@ -130,6 +130,63 @@ def rule_logging_code_is_exception_neutral(eng, rep, rule="C08-3.logging-only-co
     rep.extra["scipy_linalg_calls_in_logging_only_code"] = nlog
 
 
+def rule_step_solvers_get_a_finite_model(eng, rep, rule="C08-4.projected-step-solvers-are-called-only-with-a-model-tested-finite"):
+    """ctrsbox_pgd / ctrsbox_sfista iterate on (g, H) without any NaN handling; a non-finite entry comes back as a NaN step and the next scipy.linalg.norm raises out
+    of solve.  All call sites therefore sit behind `np.all(np.isfinite(g))` and `np.all(np.isfinite(H))` of the very arrays they pass (sibling rule: 5 of 5 sites on
+    the pinned tree).  A test of other quantities (the stored model coefficients, say) does not cover overflow in J^T J."""
+    from ..resolve import bind_call
+    n = 0
+    for fid in ("trust_region.ctrsbox_pgd", "trust_region.ctrsbox_sfista"):
+        t = eng.fn(fid)
+        gp, hp = t.posparams[1], t.posparams[2]
+        for ci in eng.calls_to(fid):
+            fi = ci.caller
+            if fi.fid.startswith("trust_region."):
+                continue
+            cfg = eng.cfg(fi)
+            b = bind_call(ci.node, t, False)
+            from .common import expanded_guard_atoms
+            gs = expanded_guard_atoms(eng, [a for (_b, a) in guards_of(cfg, cfg.cfg_node(ci.node))])       # (boolean helpers such as `_has_bad_values(g, H)` are looked through)
+            n += 1
+            site = eng.where(fi, ci.node)
+            missing = []
+
+            def tested_at(f2, callnode, name, depth=2):
+                c2 = eng.cfg(f2)
+                g2 = expanded_guard_atoms(eng, [a for (_b, a) in guards_of(c2, c2.cfg_node(callnode))])
+                if any(a.op == "truth" and any(isinstance(c, ast.Call) and ekey(c.func).split(".")[-1] == "isfinite" and c.args and ekey(c.args[0]) == name for c in ast.walk(a.lhs)) for a in g2):
+                    return True
+                if name in f2.all_params and depth > 0:
+                    # a helper that forwards its own parameter: the test must have been made at each of its call sites
+                    sites = eng.res.callers.get(f2.fid, [])
+                    if not sites:
+                        return False
+                    for cs in sites:
+                        bound = any(bd for (tt, bd) in eng.res.call_targets(cs.caller, cs.node) if tt.fid == f2.fid)
+                        bb = bind_call(cs.node, f2, bound and f2.is_method)
+                        ee = bb.params.get(name)
+                        if isinstance(ee, ast.Call) and ekey(ee.func).split(".")[-1] in ("zeros", "ones", "eye", "zeros_like"):
+                            continue          # finite by construction
+                        if not isinstance(ee, ast.Name) or not tested_at(cs.caller, cs.node, ee.id, depth - 1):
+                            return False
+                    return True
+                return False
+
+            for pn in (gp, hp):
+                e = b.params.get(pn)
+                if not isinstance(e, ast.Name):
+                    continue          # e.g. np.zeros(H.shape): finite by construction
+                if not tested_at(fi, ci.node, e.id):
+                    missing.append(e.id)
+            if missing:
+                rep.bad(rule, site, "%s|step-solver-without-finiteness-test|%s" % (fi.fid, "+".join(missing)),
+                        "%s is called with `%s` although no dominating test established np.all(np.isfinite(%s)): an overflow-sized residual makes it non-finite, the solver returns a NaN step and solve raises"
+                        % (t.qualname, ", ".join(missing), missing[0]))
+            else:
+                rep.ok(rule, site, "%s is reached only after its gradient / Hessian arguments were tested finite" % t.qualname)
+    rep.require_count(rule, "calls of ctrsbox_pgd / ctrsbox_sfista from the controller", n, 2)
+
+
 def _enclosing_try_handling(eng, node, names):
     cur = node
     while cur is not None:
@@ -161,3 +218,4 @@ def run(eng, rep):
     rule_reselection_guard(eng, rep, rule="C08-1d.NaN-incumbent-is-replaced-on-re-sampling")
     rule_exception_transparency(eng, rep)
     rule_logging_code_is_exception_neutral(eng, rep)
+    rule_step_solvers_get_a_finite_model(eng, rep)
